@@ -670,7 +670,7 @@ class Survey:
 
             # If one value it is stored as attribute.
             if value.size == 1:
-                value = float(value)
+                value = float(value.reshape(-1)[0])
 
             # If more than one value it is stored as data array;
             # broadcasting it if necessary.
